@@ -313,6 +313,7 @@ def run(chk):
     join_rules(chk, prog, None)
     generation_rule(chk, prog)
     threads_len_rule(chk, prog)
+    ids_are_indices(chk, prog)
     _typing_witness(chk)
 
 def channel_close_sites(b):
@@ -326,6 +327,50 @@ def channel_close_sites(b):
         if t and t["k"] == "call" and core.call_matches(t, r"mem::(replace|take|drop|swap)$") and any("mpsc::Sender<humphrey::thread::pool::Message>" in a for a in t.get("arg_tys", [])):
             out.append(i)
     return out
+
+
+def ids_are_indices(chk, prog):
+    """R4.ids_are_indices: a worker's id is its index in the pool's own thread vector (the recovery thread does `threads[id]`): start() numbers
+    its workers 0 .. thread_count, in the order it pushes them.  Ids taken from anything else (a process-wide counter, an offset) agree with
+    the indices only for the first pool of the process."""
+    b = prog.bodies.get("humphrey::thread::pool::ThreadPool::start")
+    if not b:
+        return
+    st = prog.structs.get("humphrey::thread::pool::ThreadPool", {}).get("fields", [])
+    ci = next((i for i, x in enumerate(st) if x["name"] == "thread_count"), None)
+    n = 0
+    from . import shared as _shared
+    sites = []
+    for bb in _shared.family(prog, b.path):
+        for blk, t in bb.calls_to(r"pool::Thread::new$"):
+            d = core.describe(prog, bb, t["args"][0])
+            if bb.kind == "closure" and isinstance(d, tuple) and d[0] == "param":
+                # `(0..n).map(|id| Thread::new(id, ..))`: the id is the element of the range the closure is mapped over
+                for hb in _shared.family(prog, b.path):
+                    for hblk, ht in hb.calls_to(r"Iterator::map$|Iterator>?::map$"):
+                        if len(ht["args"]) > 1 and core.describe(prog, hb, ht["args"][1])[0:2] == ("closure", bb.path):
+                            recv = core.describe(prog, hb, ht["args"][0])
+                            d = ("field", ("call", "std::iter::Iterator::next", [recv], hblk), 0)
+            sites.append((bb, blk, d))
+    for bb, blk, d in sites:
+        n += 1
+        rng = [y for y in core.desc_subterms(d) if isinstance(y, tuple) and y and y[0] == "variant" and y[1].endswith("ops::Range")] if hasattr(core, "desc_subterms") else []
+        ok = False
+        why = f"id = {core.short(str(d))[:120]}"
+        if rng and len(rng[0][3]) == 2:
+            lo, hi = rng[0][3]
+            ok = lo == ("lit", 0) and isinstance(hi, tuple) and hi[0] == "field" and hi[2] == ci and isinstance(hi[1], tuple) and hi[1][0] == "param" and \
+                desc_contains(d, lambda y: y[0] == "call" and core.re.search(r"Iterator>?::next$|Iterator for std::ops::Range<A>>::next$", y[1]) is not None) and \
+                not [c for c in core.desc_calls(d) if core.re.search(r"::(rev|skip|step_by|map|zip|chain|fetch_add|fetch_sub|load)$", c[1])]
+        # enumerate() over the freshly built vector / a counter local starting at 0 would be equivalent spellings: accepted when the value is the
+        # enumerate index of an iteration of length thread_count
+        if not ok and desc_contains(d, lambda y: y[0] == "call" and y[1].endswith("Enumerate<I> as std::iter::Iterator>::next")) and \
+                not [c for c in core.desc_calls(d) if core.re.search(r"::(fetch_add|fetch_sub|load|skip|rev|step_by)$", c[1])]:
+            ok = True
+        chk.ob("R4.ids_are_indices", b.path, "worker ids are 0 .. thread_count, the indices of the workers in the pool's thread vector", ok,
+               f"{why}: the recovery thread indexes the vector with the id a panicking worker reports, so ids that are not the indices make it replace (or join) the wrong "
+               "worker, or die on an out-of-bounds index", where=b.where(blk))
+    chk.floor("Thread::new sites in start()", n, 1)
 
 
 def threads_len_rule(chk, prog):
